@@ -229,7 +229,9 @@ def apply(g, op, idm: IdMap, other=None, swap=False, iter_kind="list"):
                 res.set_atom_attribute(la, "atom_type", 1 if int(res.get_atom_type(la)) == 6 else 6)
                 res.set_atom_attribute(la, "q", 8)
             if len(res.bonds):
-                lb = min((sorted(bd, key=lambda x: idm.b(x)) for bd in res.bonds), key=lambda p_: [idm.b(x) for x in p_])
+                # the spec's LeastBond orders bonds by lo + 10 * hi of the model identifiers
+                lb = min((sorted(bd, key=lambda x: idm.b(x)) for bd in res.bonds),
+                         key=lambda p_: idm.b(p_[0]) + 10 * idm.b(p_[1]))
                 res.set_bond_attribute(lb[0], lb[1], "w", 8)
         elif n == "copy_ctor":
             res = model.KIND_CLASS[op["tk"]](g)
